@@ -98,68 +98,91 @@ theorem consider_pass (E : Env) (rec : Cert → List Cert → St → Res) {c : C
   have h3 := isValid_of (t := t) hl hlink.1 hca
   simp [h0, h1, hlink.2, h3]
 
-/-- On the target chain every certificate has exactly one candidate parent. -/
-structure Step (E : Env) (c x : Cert) (isLast : Bool) : Prop where
-  link : Link E.sigOK c x
-  rootsFew : (findPotentialParents E.roots c).length ≤ 1
-  last : isLast = true → findPotentialParents E.roots c = [x]
-  inter : isLast = false → findPotentialParents E.inter c = [x] ∧ IsInterCA x
+/-- A candidate that is already in the current chain is skipped without any effect. -/
+theorem consider_skip (E : Env) (rec : Cert → List Cert → St → Res) (c : Cert) (cur : List Cert) (t : CertType) (a : Res) (x : Cert)
+    (h : x.id ∈ cur.map (·.id)) : consider E rec c cur t a x = a := by
+  unfold consider
+  have : (cur.any (·.equal x)) = true := by
+    obtain ⟨y, hy, hid⟩ := List.mem_map.1 h
+    exact List.any_eq_true.2 ⟨y, hy, by simp [Cert.equal, hid]⟩
+  simp [this]
 
-def OnTrack (E : Env) : List Cert → Prop
-  | c :: x :: more => Step E c x more.isEmpty ∧ OnTrack E (x :: more)
-  | _ => True
+theorem foldl_consider_skip (E : Env) (rec : Cert → List Cert → St → Res) (c : Cert) (cur : List Cert) (t : CertType) :
+    ∀ (xs : List Cert) (a : Res), (∀ x ∈ xs, x.id ∈ cur.map (·.id)) → xs.foldl (consider E rec c cur t) a = a
+  | [], _, _ => rfl
+  | x :: xs, a, h => by
+    simp only [List.foldl_cons]
+    rw [consider_skip E rec c cur t a x (h x (List.mem_cons_self ..))]
+    exact foldl_consider_skip E rec c cur t xs a (fun y hy => h y (List.mem_cons_of_mem _ hy))
+
+/-- The target chain is on the search's track: at every level the next certificate of the target is among the
+candidates `findPotentialParents` offers (roots pool at the last level, intermediates pool before), and in the
+intermediates pool every candidate listed before it is already part of the current chain. -/
+def OnTrack (E : Env) : Cert → List Cert → List Cert → Prop
+  | _, _, [] => True
+  | c, _, [x] => Link E.sigOK c x ∧ x ∈ findPotentialParents E.roots c
+  | c, cur, x :: y :: more =>
+    Link E.sigOK c x ∧ IsInterCA x ∧
+    (∃ pre post, findPotentialParents E.inter c = pre ++ x :: post ∧ ∀ z ∈ pre, z.id ∈ cur.map (·.id)) ∧
+    OnTrack E x (cur ++ [x]) (y :: more)
+
+/-- An upper bound on the signature checks the walk along the target needs: at every level one per root candidate
+and one for the next certificate. -/
+def cost (E : Env) : Cert → List Cert → Nat
+  | _, [] => 0
+  | c, x :: more => (findPotentialParents E.roots c).length + 1 + cost E x more
 
 theorem buildStep_chains (E : Env) (rec : Cert → List Cert → St → Res) (c : Cert) (cur : List Cert) (st : St) :
     (buildStep E rec c cur st).chains =
       ((findPotentialParents E.inter c).foldl (consider E rec c cur .intermediate)
         ((findPotentialParents E.roots c).foldl (consider E rec c cur .root) ⟨[], none, st⟩)).chains := rfl
 
-/-- **Search completeness on a track.** -/
+/-- **Search completeness on a track.** Starting from an empty cache and with enough budget left, the search finds
+the target chain — however many other candidates the pools offer. -/
 theorem search_finds (E : Env) : ∀ (rem cur : List Cert) (c : Cert) (st : St) (fuel : Nat),
-    cur.getLast? = some c → ((cur ++ rem).map (·.id)).Nodup → OnTrack E (c :: rem) → rem ≠ [] →
-    st.cache = [] → (st.sigChecks : Int) + 2 * rem.length ≤ 100 → rem.length ≤ fuel →
+    cur.getLast? = some c → ((cur ++ rem).map (·.id)).Nodup → OnTrack E c cur rem → rem ≠ [] →
+    st.cache = [] → st.sigChecks + cost E c rem ≤ 100 → rem.length ≤ fuel →
     (cur ++ rem) ∈ (buildChains E fuel c cur st).chains
   | [], _, _, _, _, _, _, _, h, _, _, _ => absurd rfl h
   | [x], cur, c, st, fuel, hl, hnd, ht, _, hc, hb, hf => by
     obtain ⟨n, rfl⟩ : ∃ n, fuel = n + 1 := ⟨fuel - 1, by simp at hf; omega⟩
     simp only [buildChains, buildStep_chains]
     apply foldl_consider_chains_mono
-    have hs : Step E c x true := by simpa [OnTrack] using ht
-    rw [hs.last rfl]
-    simp only [List.foldl_cons, List.foldl_nil]
+    obtain ⟨hlink, hmem⟩ : Link E.sigOK c x ∧ x ∈ findPotentialParents E.roots c := by simpa [OnTrack] using ht
+    obtain ⟨pre, post, hsplit⟩ := List.append_of_mem hmem
+    rw [hsplit, List.foldl_append, List.foldl_cons]
+    apply foldl_consider_chains_mono
+    have hr := foldl_root_state E (buildChains E n) c cur pre ⟨[], none, st⟩
     have hnew : x.id ∉ cur.map (·.id) := by
       intro hm
       simp only [List.map_append, List.map_cons, List.map_nil] at hnd
       exact (List.nodup_append.1 hnd).2.2 _ hm _ (by simp) rfl
-    rw [consider_pass E _ .root _ x hl hnew (by simp at hb ⊢; omega) hs.link (by intro e; cases e)]
+    have hcost : pre.length + 1 ≤ cost E c [x] := by
+      simp only [cost, hsplit, List.length_append, List.length_cons]; omega
+    rw [consider_pass E _ .root _ x hl hnew (by have := hr.2; simp at this ⊢; omega) hlink (by intro e; cases e)]
     simp [extend]
   | x :: y :: more, cur, c, st, fuel, hl, hnd, ht, _, hc, hb, hf => by
     obtain ⟨n, rfl⟩ : ∃ n, fuel = n + 1 := ⟨fuel - 1, by simp at hf; omega⟩
     simp only [buildChains, buildStep_chains]
-    have hs : Step E c x false := by
-      have := ht
-      simp only [OnTrack] at this
-      simpa using this.1
-    have ht' : OnTrack E (x :: y :: more) := by
-      have := ht
-      simp only [OnTrack] at this
-      exact this.2
+    obtain ⟨hlink, hca, ⟨pre, post, hsplit, hpre⟩, ht'⟩ := ht
     have hr := foldl_root_state E (buildChains E n) c cur (findPotentialParents E.roots c) ⟨[], none, st⟩
-    rw [(hs.inter rfl).1]
-    simp only [List.foldl_cons, List.foldl_nil]
+    rw [hsplit, List.foldl_append, List.foldl_cons, foldl_consider_skip E _ c cur .intermediate pre _ hpre]
+    apply foldl_consider_chains_mono
     have hnew : x.id ∉ cur.map (·.id) := by
       intro hm
       simp only [List.map_append, List.map_cons] at hnd
       exact (List.nodup_append.1 hnd).2.2 _ hm _ (by simp) rfl
-    have hlen := hs.rootsFew
-    simp only [List.length_cons] at hb hf
-    rw [consider_pass E _ .intermediate _ x hl hnew (by have := hr.2; simp at this ⊢; omega) hs.link (fun _ => (hs.inter rfl).2)]
+    simp only [cost] at hb
+    simp only [List.length_cons] at hf
+    rw [consider_pass E _ .intermediate _ x hl hnew (by have := hr.2; simp at this ⊢; omega) hlink (fun _ => hca)]
     unfold extend
     simp only [bump, hr.1, hc, List.lookup]
     have ih := search_finds E (y :: more) (cur ++ [x]) x
       { sigChecks := ((findPotentialParents E.roots c).foldl (consider E (buildChains E n) c cur .root) ⟨[], none, st⟩).st.sigChecks + 1, cache := [] }
       n List.getLast?_concat (by simpa using hnd) ht' (by simp) rfl
-      (by have := hr.2; simp at this ⊢; omega) (by simp; omega)
+      (by have h2 := hr.2; dsimp only at h2 ⊢
+          have hcx : cost E x (y :: more) = (findPotentialParents E.roots x).length + 1 + cost E y more := rfl
+          omega) (by simp; omega)
     simp only [List.append_assoc, List.singleton_append] at ih
     exact List.mem_append_right _ ih
 
